@@ -23,8 +23,14 @@ PID = "C15"
 LEVEL = "proof"
 ASSUMPTIONS = [
     "SQLite applies or rolls back a transaction atomically (BEGIN IMMEDIATE .. COMMIT/ROLLBACK)",
-    "'received in full is applied in full' at the connection level (handler tasks are not cancelled by a vanishing "
-    "peer) is covered by the C16 check of rpc.py; here the request bodies and the session are modelled",
+    "'received in full is applied in full' at the connection level is decided by the oracle shared with C16 "
+    "(props.c16.applied_after_disconnect): real RPCServerConnections on in-memory streams and a virtual clock; a "
+    "handler that waits on a future or on a lock (like a request waiting for the database session) after its "
+    "request arrived in full, the requester going away in every way (EOF/half-close, reset, polite close message, "
+    "close message then EOF, vanished with a lost writer, death in the middle of a later request, server stop) at "
+    "every point (right after the request, after another reply, while the writer is blocked), one hour of virtual "
+    "time, then the release: the handler must run to completion exactly once and a call on another connection "
+    "must be answered; the request bodies and the session themselves are modelled here",
 ]
 SCOPES = {"declarations", "scheduler", "completion", "propagation"}
 
@@ -276,6 +282,10 @@ async def search(ctx):
     for i in range(ctx.budget(120, 3000)):
         for sig, what, detail in await handler_case(ctx, i):
             ctx.finding(Finding(PID, sig, what, {**detail, "case": {"verif_seed": ctx.seed, "salt": "handler", "index": i}}))
+    # received in full is applied in full, even when the requester is gone long before the handler can run
+    import props.c16 as c16
+
+    await c16.applied_after_disconnect(ctx, PID)
     r = ctx.rng("session-oracle")
     for i in range(ctx.budget(150, 3000)):
         sched, outs, rows = await session_case(r, 3, 16)
